@@ -26,6 +26,15 @@ pub fn builtin_binary_repeat<E: Effect>(
                 }
                 let count = bigint_to_usize(count)?;
                 let unit = executor.get_binary_data(binary)?.clone();
+                match unit.len().checked_mul(count) {
+                    Some(total) if total <= crate::value::MAX_BINARY_SIZE => {}
+                    _ => {
+                        return Err(Error::InvalidArgument(format!(
+                            "Repeated size exceeds maximum {}",
+                            crate::value::MAX_BINARY_SIZE
+                        )));
+                    }
+                }
                 let tiled = BinaryData::tiled(Rc::new(unit), count);
                 // allocate_binary_data enforces MAX_BINARY_SIZE against the realized length.
                 let binary = executor.allocate_binary_data(tiled)?;
